@@ -240,6 +240,14 @@ def add (fl : Flavour) (w : World) (verbose : Bool) (archive : Str) (raw : Bytes
   | .error e => { status := .raised e }
   | .ok img => performOn fl w verbose archive img srcs
 
+/-- `DiskArchiveCli.run`: the check of the archive name, before anything is opened -/
+def checkArchiveName (fl : Flavour) (archive : Str) : Except PyErr Unit :=
+  match rfindFrom 46 archive 0 with
+  | none => .error (.valueError "error.file.name.must.have.extension")
+  | some dp =>
+    if lower (archive.drop (dp + 1)) = (match fl with | .sd => str "sd" | .fd => str "fd") then .ok ()
+    else .error (.valueError "error.file.name.extension")
+
 /-! ## extractor, enumerator -/
 
 def evOfEntry (bat : List Nat) (e : Entry) : FileEv :=
